@@ -418,59 +418,44 @@ theorem sum_spare_eq (bs : List MBuf) :
   | nil => rfl
   | cons b bs ih => simp [List.sum_cons, ← ih, C14_len_agree_bufmut_spare]
 
-theorem MSlice.totalSpare_lt (s : MSlice) : ∀ t, s.totalSpare = some t → t < 4294967296 := by
+theorem foldl_satAdd (xs : List Nat) (acc : Nat) (h : acc ≤ 4294967295) :
+    xs.foldl satAdd acc = min (acc + xs.sum) 4294967295 := by
+  induction xs generalizing acc with
+  | nil => simp; omega
+  | cons x xs ih =>
+    simp only [List.foldl_cons, List.sum_cons]
+    rw [ih (satAdd acc x) (by unfold satAdd; omega)]
+    unfold satAdd; omega
+
+/-- The saturating sum is the true sum capped at `u32::MAX`. -/
+theorem sumSatU32_eq (xs : List Nat) : sumSatU32 xs = min xs.sum 4294967295 := by
+  unfold sumSatU32
+  rw [foldl_satAdd xs 0 (by omega)]
+  simp
+
+/-- **`BufMutSlice::total_spare_capacity` (full statement).** For every
+array / tuple / `LimitedBuf` / `ReadNBuf` of every arity, every capacity and
+**every limit** — no hypothesis at all — the call never panics (it is a total
+function) and reports the total length of the iovecs capped at `u32::MAX`:
+exactly the total whenever that is below 2^32, `u32::MAX` (saturated) otherwise. -/
+theorem C14_len_agree_mutslice_spare (s : MSlice) :
+    s.totalSpare = min (sumLens s.iovecsMut) 4294967295 := by
   induction s with
   | arr bs =>
-    intro t h
-    simp only [MSlice.totalSpare, sumU32] at h
-    split at h
-    · simp at h; omega
-    · simp at h
+    simp only [MSlice.totalSpare, sumSatU32_eq, sum_spare_eq, MSlice.iovecsMut, sumLens,
+      List.map_map, Function.comp_def]
   | limited i l ih =>
-    intro t h
-    simp only [MSlice.totalSpare] at h
-    cases hi : i.totalSpare with
-    | none => rw [hi] at h; simp at h
-    | some u => rw [hi] at h; simp at h; have := asU32_lt (min u l); omega
+    simp only [MSlice.totalSpare, MSlice.iovecsMut, clamp_sum, ih]
+    rw [asU32_of_lt (by omega)]
+    omega
   | readN i k ih => exact ih
 
-/-- `BufMutSlice::total_spare_capacity`: whenever it returns it is the total
-length of the iovecs, for every arity, capacity and **every limit**; it panics
-(checked `u32` addition) exactly when the buffers expose 2^32 bytes or more in
-total. -/
-theorem C14_len_agree_mutslice_spare (s : MSlice) :
-    (∀ t, s.totalSpare = some t → t = sumLens s.iovecsMut) ∧
-    (s.totalSpare = none ↔ 4294967296 ≤ s.rawTotal) := by
-  induction s with
-  | arr bs =>
-    simp only [MSlice.totalSpare, sumU32, MSlice.iovecsMut, MSlice.rawTotal, MSlice.elems,
-      sumLens, sum_spare_eq, List.map_map]
-    constructor
-    · intro t h
-      split at h
-      · simp at h; exact h.symm
-      · simp at h
-    · split <;> simp <;> omega
-  | limited i l ih =>
-    obtain ⟨ih1, ih2⟩ := ih
-    constructor
-    · intro t h
-      simp only [MSlice.totalSpare] at h
-      cases hi : i.totalSpare with
-      | none => rw [hi] at h; simp at h
-      | some u =>
-        rw [hi] at h
-        simp at h
-        have e := ih1 u hi
-        have hlt := i.totalSpare_lt u hi
-        have h3 : asU32 (min u l) = min u l := asU32_of_lt (by omega)
-        simp only [MSlice.iovecsMut, clamp_sum]
-        omega
-    · have e : (MSlice.limited i l).rawTotal = i.rawTotal := rfl
-      rw [e, ← ih2]
-      simp only [MSlice.totalSpare]
-      cases i.totalSpare <;> simp
-  | readN i k ih => exact ih
+/-- The two cases spelled out. -/
+theorem C14_len_agree_mutslice_spare_cases (s : MSlice) :
+    (sumLens s.iovecsMut < 4294967296 → s.totalSpare = sumLens s.iovecsMut) ∧
+    (4294967296 ≤ sumLens s.iovecsMut → s.totalSpare = 4294967295) := by
+  rw [C14_len_agree_mutslice_spare]
+  constructor <;> intro h <;> omega
 
 theorem has_agree_list (bs : List MBuf) (hwf : ∀ b ∈ bs, b.WF) (hs : ∀ b ∈ bs, b.Small) :
     (bs.any (·.hasSpare) = true ↔ (bs.map (·.partsMut.len)).sum ≠ 0) := by
@@ -496,57 +481,27 @@ theorem C14_len_agree_mutslice_has (s : MSlice) (hwf : s.WF) (hs : s.Small) :
     omega
   | readN i k ih => exact ih hwf hs
 
-/-- The full statement of the length law for `total_spare_capacity`: it
-returns the total of the iovecs, for every array / tuple / wrapper over
-well-formed buffers below the 2^32 bound each. -/
-def C14_len_agree_mutslice_full : Prop :=
-  ∀ s : MSlice, s.WF → s.Small → s.totalSpare = some (sumLens s.iovecsMut)
+/-- The defect repaired by the `fix:` commit 51b2f60: the spare capacities were
+added as plain `u32`s (`iter().sum()`, `0 + a + b`). For two empty vectors of
+capacity 2^31 each — both below the 2^32 bound — the iovecs expose 2^32 bytes
+and `has_spare_capacity()` is `true`, but the sum overflowed: a panic with
+overflow checks on, `0` without. Now it saturates. -/
+def sumU32Old (xs : List Nat) : Option Nat :=
+  if xs.sum < 4294967296 then some xs.sum else none
 
-/-- What holds of the code as it is: the law under the extra hypothesis that
-the buffers expose less than 2^32 bytes *in total* (every limit). -/
-theorem C14_len_agree_mutslice_partial (s : MSlice) (h : s.rawTotal < 4294967296) :
-    s.totalSpare = some (sumLens s.iovecsMut) := by
-  obtain ⟨h1, h2⟩ := C14_len_agree_mutslice_spare s
-  cases ht : s.totalSpare with
-  | none => have := h2.mp ht; omega
-  | some t => rw [h1 t ht]
+example : sumU32Old [2147483648, 2147483648] = none := by decide
+example : (2147483648 + 2147483648) % 4294967296 = 0 := by decide
+example : sumSatU32 [2147483648, 2147483648] = 4294967295 := by decide
 
-theorem full_fails_aux (m : List Nat) (hm : m.length = 2147483648) :
-    (MSlice.arr [.vec ⟨0, m, 0⟩, .vec ⟨1, m, 0⟩]).WF ∧
-    (MSlice.arr [.vec ⟨0, m, 0⟩, .vec ⟨1, m, 0⟩]).Small ∧
-    (MSlice.arr [.vec ⟨0, m, 0⟩, .vec ⟨1, m, 0⟩]).totalSpare = none ∧
-    sumLens (MSlice.arr [.vec ⟨0, m, 0⟩, .vec ⟨1, m, 0⟩]).iovecsMut = 4294967296 ∧
-    (MSlice.arr [.vec ⟨0, m, 0⟩, .vec ⟨1, m, 0⟩]).hasSpare = true := by
+theorem saturated_witness (m : List Nat) (hm : m.length = 2147483648) :
+    (MSlice.arr [.vec ⟨0, m, 0⟩, .vec ⟨1, m, 0⟩]).totalSpare = 4294967295 ∧
+    sumLens (MSlice.arr [.vec ⟨0, m, 0⟩, .vec ⟨1, m, 0⟩]).iovecsMut = 4294967296 := by
   have hsp : asU32 (m.length - 0) = 2147483648 := by rw [hm]; rfl
-  refine ⟨?_, ?_, ?_, ?_, ?_⟩
-  · intro b hb
-    simp only [MSlice.elems, List.mem_cons, List.not_mem_nil, or_false] at hb
-    rcases hb with rfl | rfl <;> exact Nat.zero_le _
-  · intro b hb
-    simp only [MSlice.elems, List.mem_cons, List.not_mem_nil, or_false] at hb
-    rcases hb with rfl | rfl <;> (show m.length < 4294967296; omega)
-  · simp only [MSlice.totalSpare, sumU32, List.map_cons, List.map_nil, MBuf.spare, Base.spare,
-      Base.cap, hsp, List.sum_cons, List.sum_nil]
-    rfl
-  · simp only [MSlice.iovecsMut, sumLens, List.map_cons, List.map_nil, MBuf.partsMut,
+  have h2 : sumLens (MSlice.arr [.vec ⟨0, m, 0⟩, .vec ⟨1, m, 0⟩]).iovecsMut = 4294967296 := by
+    simp only [MSlice.iovecsMut, sumLens, List.map_cons, List.map_nil, MBuf.partsMut,
       Base.partsMut, Base.cap, hsp, List.sum_cons, List.sum_nil]
     rfl
-  · simp only [MSlice.hasSpare, List.any_cons, MBuf.hasSpare, Base.hasSpare, Base.cap, hm]
-    rfl
-
-/-- **The code as it stands violates the full statement.** Witness: the array
-`[Vec::with_capacity(2^31), Vec::with_capacity(2^31)]` of empty vectors — each
-below the 2^32 bound. The iovecs expose 2^32 bytes and `has_spare_capacity()`
-is `true`, but `total_spare_capacity()` adds `u32`s: it panics ("attempt to add
-with overflow") in the dev profile and returns `0` in release. Confirmed on the
-real code (`bufs caps arr 2147483648,2147483648`). -/
-theorem C14_len_agree_mutslice_full_fails : ¬ C14_len_agree_mutslice_full := by
-  intro h
-  obtain ⟨hwf, hs, hnone, _, _⟩ :=
-    full_fails_aux (List.replicate 2147483648 0) List.length_replicate
-  have := h _ hwf hs
-  rw [hnone] at this
-  cases this
+  exact ⟨by rw [C14_len_agree_mutslice_spare, h2]; rfl, h2⟩
 
 /-- The formulas the `caps` op of the correspondence prints for an array of
 empty vectors are the model's `spare`, `parts_mut`, `total_spare_capacity` and
@@ -557,7 +512,7 @@ theorem caps_row_sound (ms : List (List Nat)) :
     let caps := ms.map List.length
     bs.map (·.spare) = caps.map (fun c => asU32 (c - 0)) ∧
     bs.map (·.partsMut.len) = caps.map (fun c => asU32 (c - 0)) ∧
-    (MSlice.arr bs).totalSpare = sumU32 (caps.map fun c => asU32 (c - 0)) ∧
+    (MSlice.arr bs).totalSpare = sumSatU32 (caps.map fun c => asU32 (c - 0)) ∧
     (MSlice.arr bs).hasSpare = caps.any (fun c => decide (c > 0)) := by
   simp only [MSlice.totalSpare, MSlice.hasSpare, List.map_map, List.any_map]
   refine ⟨?_, ?_, ?_, ?_⟩ <;> first | rfl | (congr 1)
@@ -1338,15 +1293,15 @@ theorem C14_inside :
   ⟨C14_inside_buf, C14_inside_bufmut, C14_inside_slice, C14_inside_mutslice⟩
 
 /-- **C14_len_agree.** Reported lengths and spare capacities agree with the
-exposed pairs (base buffers shorter than 2^32 bytes; every limit). -/
+exposed pairs (base buffers shorter than 2^32 bytes; every limit; the vectored
+spare total saturates at `u32::MAX`). -/
 theorem C14_len_agree :
     (∀ b : RBuf, b.WF → b.Small → b.len = b.parts.len ∧ (b.isEmpty = true ↔ b.parts.len = 0)) ∧
     (∀ b : MBuf, b.spare = b.partsMut.len) ∧
     (∀ b : MBuf, b.WF → b.Small → (b.hasSpare = true ↔ b.partsMut.len ≠ 0)) ∧
     (∀ s : RSlice, s.WF → s.Small →
       s.totalLen = sumLens s.iovecs ∧ (s.isEmpty = true ↔ sumLens s.iovecs = 0)) ∧
-    (∀ s : MSlice, (∀ t, s.totalSpare = some t → t = sumLens s.iovecsMut) ∧
-      (s.totalSpare = none ↔ 4294967296 ≤ s.rawTotal)) ∧
+    (∀ s : MSlice, s.totalSpare = min (sumLens s.iovecsMut) 4294967295) ∧
     (∀ s : MSlice, s.WF → s.Small → (s.hasSpare = true ↔ sumLens s.iovecsMut ≠ 0)) :=
   ⟨C14_len_agree_buf, C14_len_agree_bufmut_spare, C14_len_agree_bufmut_has, C14_len_agree_slice,
     C14_len_agree_mutslice_spare, C14_len_agree_mutslice_has⟩
@@ -1371,7 +1326,7 @@ def exS : MSlice :=
 
 example : exS.WF ∧ exS.Small ∧ exS.elems ≠ [] := by decide
 example : exS.iovecsMut = [⟨some 0, 0, 2⟩, ⟨some 1, 1, 1⟩, ⟨some 2, 0, 2⟩] := by decide
-example : exS.totalSpare = some 5 ∧ sumLens exS.iovecsMut = 5 := by decide
+example : exS.totalSpare = 5 ∧ sumLens exS.iovecsMut = 5 := by decide
 example : (exS.setInit 4).2 = false ∧
     (exS.setInit 4).1.elems.map (·.content) = [[238, 238], [9, 238], [238]] := by decide
 example : exS.Legal [.expose, .init 4, .expose, .init 1] := by decide
